@@ -7,7 +7,7 @@
     is outside the model (the property says "up to rounding"). *)
 From Coq Require Import Reals List QArith Qreals.
 From SV Require Import Rot.RotBase Gen.RotFormulas_gen Rot.RotAlgebra Rot.RotAliasProofs Rot.RotEuler Rot.RotEulerProofs
-  Rot.RotDispatch Rot.RotDispatchProofs Rot.RotMixedProofs Rot.RotInplace Rot.RotMethods Rot.RotMethodsProofs Gen.RotDispatch_gen Rot.RotGJ Rot.RotGJProofs Rot.RotGJTotal Rot.RotGJTotalProofs Rot.RotGJExample Rot.RotRoundEuler Rot.RotProperty
+  Rot.RotDispatch Rot.RotDispatchProofs Rot.RotMixedProofs Rot.RotInplace Rot.RotCopies Rot.RotMethods Rot.RotMethodsProofs Gen.RotDispatch_gen Rot.RotGJ Rot.RotGJProofs Rot.RotGJTotal Rot.RotGJTotalProofs Rot.RotGJExample Rot.RotRoundEuler Rot.RotProperty
   Rot.RotReify Gen.RotReified_gen Rot.RotReifyProofs
   Rot.RotRound Rot.RotRoundProofs Rot.RotRoundFlocq Gen.RotRounded_gen Rot.RotRoundTied.
 Import ListNotations.
@@ -177,6 +177,15 @@ Theorem c04_inplace_census_sound : forall c, census_ok c = true -> forall m, In 
   (exists p, In p (im_paths m) /\ p <> PNotImplemented) /\
   forall p, In p (im_paths m) -> p = PNotImplemented \/ exists n, p = PSelf (S n).
 Proof. exact census_ok_sound. Qed.
+(** Matrix conversions (round 4; Gen/RotCopies_gen.v: copy, __deepcopy__, freeze, thaw, _new_copy classified by symbolic
+    execution as `return self` or a field-for-field new matrix): for an accepted table a mutable matrix is never handed out as
+    its own copy, _new_copy (what `@` multiplies in place) is a new object of the receiver's class also for a frozen matrix,
+    freeze gives a FrozenMatrix and thaw a Matrix. *)
+Theorem c04_matrix_copies_sound : forall t, copies_ok t = true -> forall r, In r t ->
+  (cr_frozen r = false -> cr_alias r = false) /\
+  (cr_meth r = CNewCopy -> cr_alias r = false /\ cr_result_frozen r = cr_frozen r) /\
+  (cr_meth r = CFreeze -> cr_result_frozen r = true) /\ (cr_meth r = CThaw -> cr_result_frozen r = false).
+Proof. exact copies_ok_sound. Qed.
 (** The in-place rotation METHODS (round 4; Gen/RotMethods_gen.v: the bodies of Vec.localise, Vec.transform(),
     Angle.transform() and Vec.rotate executed symbolically on every run, the body of `with x.transform() as m:` being
     `m @= rot`): for an accepted table the receiver ends up holding the pure form - `v @ angles + origin`, `v @ rot`,
